@@ -672,7 +672,12 @@ class Builder:
         if isinstance(e, ast.Call):
             return self.call(e, env, ctx)
         if isinstance(e, ast.IfExp):
-            if self.decide(self.ev(e.test, env, ctx), e):
+            t_ = self.ev(e.test, env, ctx)
+            if self.fold(t_) is None and any(isinstance(x, tuple) and x and x[0] == "bound" for x in walk(t_)):
+                # the test reads a comprehension / loop variable: it differs from element to element, so it is a selection inside the
+                # element expression, not a static case of the enclosing function
+                return self.mk_ite(t_, self.ev(e.body, env, ctx), self.ev(e.orelse, env, ctx))
+            if self.decide(t_, e):
                 return self.ev(e.body, env, ctx)
             return self.ev(e.orelse, env, ctx)
         if isinstance(e, ast.JoinedStr):
